@@ -287,6 +287,9 @@ type Env struct {
 	// diskpacked.Reindex, blobpacked meta wiped and rebuilt by full recovery,
 	// encrypt index wiped (meta re-scan at open).
 	Recover bool
+	// PackedRecovery: blobpacked recovery mode for this build without wiping anything first
+	// (0 = none, 1 = fast, 2 = full), as an operator would restart the server.
+	PackedRecovery int
 }
 
 // Sys is a built configuration.
@@ -465,13 +468,17 @@ func build(c *Cfg, path string, sys *Sys, ld *loader) (sto blobserver.Storage, c
 		if err != nil {
 			return nil, false, false, err
 		}
-		if env.Recover {
+		if env.Recover || env.PackedRecovery > 0 {
 			recoverMu.Lock()
-			blobpacked.SetRecovery(blobpacked.FullRecovery)
+			if env.Recover || env.PackedRecovery == 2 {
+				blobpacked.SetRecovery(blobpacked.FullRecovery)
+			} else {
+				blobpacked.SetRecovery(blobpacked.FastRecovery)
+			}
 		}
 		s, err := blobserver.CreateStorage("blobpacked", ld, jsonconfig.Obj{
 			"smallBlobs": sp, "largeBlobs": lp, "metaIndex": map[string]any(kc), "keepGoing": true})
-		if env.Recover {
+		if env.Recover || env.PackedRecovery > 0 {
 			blobpacked.SetRecovery(blobpacked.NoRecovery)
 			recoverMu.Unlock()
 			if err != nil {
